@@ -34,7 +34,7 @@ def strategy():
     @st.composite
     def node(draw, depth, mid_factory):
         n = {'mode': draw(st.sampled_from(list(U.MODES))), 'res': draw(st.lists(st.sampled_from(RES), max_size=2, unique=True)) if depth == 0 else [],
-             'mws': draw(st.lists(st.integers(0, 4), max_size=3, unique=True)), 'handler': 'default',
+             'mws': draw(st.lists(st.integers(0, 5), max_size=3, unique=True)), 'handler': 'default',
              'factory': draw(st.booleans()) and True, 'items': []}
         if depth > 0:
             # an inner level may define a name only if no other inner level on this path does; sharing with the root is fine
@@ -80,6 +80,15 @@ def mw_obj(tid):
                 return next()
             finally:
                 TRACE.append('<mw%d' % _tid)
+        if tid == 5:
+            # an optional consumer: takes two resource names with defaults - whatever level defines them, it must be handed
+            # the value the flat declaration hands it (or its default when nobody defines them)
+            def request(next, r1='(r1 unset)', r2='(r2 unset)', _tid=tid):     # noqa: F811
+                TRACE.append('mw%d[r1=%s,r2=%s]>' % (_tid, r1, r2))
+                try:
+                    return next()
+                finally:
+                    TRACE.append('<mw%d' % _tid)
         cls = type('C10MW%d' % tid, (Middleware,), {'unique': tid != 4})
         inst = cls()
         inst.request = request
@@ -136,8 +145,8 @@ def make_endpoint(rid, beh, names, uses, values):
 def callable_render(rid):
     from clastic import Response
 
-    def render(context):
-        return Response('R%s:%s' % (rid, json.dumps(context, sort_keys=True)))
+    def render(context, r1='(r1 unset)'):
+        return Response('R%s[r1=%s]:%s' % (rid, r1, json.dumps(context, sort_keys=True)))
     return render
 
 
